@@ -17,6 +17,7 @@ Oracle : reference model independent of mako.cache/codegen.  Every cached sectio
 import itertools
 import os
 import re
+import signal
 
 from vf import core
 from vf.core import Failure
@@ -59,6 +60,8 @@ VALS = ["a", "b", "c"]
 WVALS = ["w&1", "<w2>", "w~3", "w4"]
 TEXTS = ["lit", "x&y", "<i>", "~z", " ", ".", "q1 "]
 FILTER_DEF = "<%! fb = lambda s: s.replace('~', '~~') %>"
+
+CASE_WALL_LIMIT_S = 300
 
 KEY_COLLISION = "cross-template-cache-collision"
 KEY_BEAKER_SET = "beaker-set-not-implemented"
@@ -415,6 +418,7 @@ def case_strategy(backends):
                 st.tuples(st.just("inv_closure"), st.just(t), sel),
                 st.tuples(st.just("inv"), st.just(t), sel),
                 st.tuples(st.just("set"), st.just(t), sel, st.integers(0, 3)),
+                st.tuples(st.just("set"), st.just(t), sel, st.integers(0, 3)),
                 st.tuples(st.just("get"), st.just(t), sel),
                 st.tuples(st.just("enable"), st.just(t), st.booleans()),
             )
@@ -544,6 +548,9 @@ class Machine:
         self.backend = case["backend"]
         self.tmp = tmp
         self.strict = strict
+        # False (default): invalidate_* of a not yet used section with own arguments is left out of the history
+        # (known finding, see KEY_EARLY_INV).  run() switches this on as soon as the dedicated probe passes.
+        self.exec_early_inv = bool(case.get("exec_early_inv"))
         self.shared_store = {}
         self.tag = "/vf17_%d_%d" % (os.getpid(), next(_uniq))
         self.done = []            # concrete ops executed so far
@@ -557,8 +564,9 @@ class Machine:
             uri = self.tag + ("/t%d" % ts.tid if decollide else "") + rec["uri"]
             ts.t_args = self._resolve_args(rec["cache_args"])
             ts.subject = self._make(rec, uri, ts.t_args, True, ts.log)
-            ts.ref = self._make(rec, self.tag + "/ref%d.html" % ts.tid, self._resolve_args(rec["cache_args"]),
-                                False, ts.ref_log, ref=True)
+            # the uncached reference never needs a backend; it gets the lock-free recording one so that a tree in
+            # which cache_enabled=False is not honoured shows up in ref_log instead of dead-locking a real backend
+            ts.ref = self._make(rec, self.tag + "/ref%d.html" % ts.tid, {}, False, ts.ref_log, ref=True)
             self.ts.append(ts)
 
     # -- construction --------------------------------------------------
@@ -580,7 +588,7 @@ class Machine:
 
         kw = dict(uri=uri, cache_args=dict(t_args), buffer_filters=list(rec["buffer_filters"]),
                   cache_enabled=enabled)
-        if self.backend == "rec":
+        if self.backend == "rec" or ref:
             kw["cache_impl"] = "vf17rec"
         elif self.backend == "rec_ctx":
             kw["cache_impl"] = "vf17recctx"
@@ -596,6 +604,8 @@ class Machine:
         case = {"backend": self.backend, "templates": self.case["templates"], "ops": list(self.done)}
         if self.strict:
             case["strict"] = True
+        if self.exec_early_inv:
+            case["exec_early_inv"] = True
         hist = "; ".join(_opstr(o) for o in self.done[-8:])
         detail = "[%s] after %d ops (.. %s): %s" % (self.backend, len(self.done), hist, msg)
         if ts is not None:
@@ -629,7 +639,7 @@ class Machine:
             key = cands[arg % len(cands)]
             return [kind, ti, key, ts.owner_args(key)]
         if kind == "set":
-            cands = held + defaults + ["zz0", "zz1"]
+            cands = held * 2 + defaults * 2 + ["zz0", "zz1"]
             key = cands[arg % len(cands)]
             return [kind, ti, key, "SETv%d" % op[3], ts.owner_args(key)]
         raise core.HarnessError("unknown op %r" % (op,))
@@ -639,7 +649,7 @@ class Machine:
         op = self.concretise(op)
         kind, ti = op[0], op[1]
         ts = self.ts[ti]
-        if kind in ("inv_body", "inv_def", "inv_closure") and not self.strict:
+        if kind in ("inv_body", "inv_def", "inv_closure") and not self.strict and not self.exec_early_inv:
             defname = self._defname(op)
             sec = ts.by_defname.get(defname)
             if sec is not None and defname not in ts.frozen and ts.eff_args(sec):
@@ -704,7 +714,6 @@ class Machine:
                                 % (what, defname, [(r[0], r[1]) for r in recs]), ts)
         else:
             self._check_plain_record(ts, what, recs, "inv", defname, exp_kw)
-        ts.frozen.add(defname)
         if ts.store.pop(defname, None) is not None:
             self.inval_effective += 1
             self.events.add("ev:inval_effective")
@@ -808,6 +817,14 @@ class Machine:
         for n in nodes:
             if n.tid != ts.tid or n.sid not in ts.sections or not ts.sections[n.sid]["cached"]:
                 raise core.HarnessError("foreign sentinel in uncached output: %r" % ref_out)
+        # --- outside the domain: a key requested while an enclosing instance with the same key is being created
+        def conflicts(kids, open_keys):
+            for n in kids:
+                if n.key in open_keys:
+                    raise Reject("key %r requested while being created" % n.key)
+                conflicts(n.children, open_keys | {n.key})
+
+        conflicts(tree, frozenset())
         # --- model walk
         exp_ticks, exp_calls = [], []
         new_store = dict(ts.store)
@@ -1057,12 +1074,14 @@ def case_labels(case, m):
 
 
 def shard_search(task):
-    seed, n, backends = task
+    seed, n, backends, exec_early_inv = task
     core.setup_repo()
     ev = core.Evidence()
 
     def check(ir):
         case = build_case(ir)
+        if exec_early_inv:
+            case["exec_early_inv"] = True
         try:
             f, m = check_case(case)
         except Reject:
@@ -1085,7 +1104,19 @@ def shard_search(task):
         if f is not None:
             raise f
 
-    fails, _ = core.hyp_search(case_strategy(backends), check, ev, seed, n)
+    def guarded(ir):
+        # dead-lock guard only (a re-entrant backend call under a broken tree): harness error, never a verdict
+        signal.setitimer(signal.ITIMER_REAL, CASE_WALL_LIMIT_S)
+        try:
+            check(ir)
+        finally:
+            signal.setitimer(signal.ITIMER_REAL, 0)
+
+    def on_alarm(signum, frame):
+        raise core.HarnessError("one C17 case ran for more than %d s (dead-locked backend?)" % CASE_WALL_LIMIT_S)
+
+    signal.signal(signal.SIGALRM, on_alarm)
+    fails, _ = core.hyp_search(case_strategy(backends), guarded, ev, seed, n)
     return ev, fails
 
 
@@ -1098,10 +1129,13 @@ def run(ctx):
             if f is not None:
                 ctx.fail(f)
     if part in (None, "search"):
-        n = ctx.pick(110, 1500)
+        # the search leaves early invalidate_* ops out only while the tree under test still has that finding
+        early_ok = run_probe(KEY_EARLY_INV) is None
+        ctx.ev.notes["early_invalidate_ops_executed_in_search"] = early_ok
+        n = ctx.pick(90, 1400)
         mixes = [BACKENDS, ["rec", "rec_ctx"], ["beaker_memory", "beaker_file"], BACKENDS, ["dogpile", "rec_ctx", "beaker_file"]]
         nsh = ctx.pick(16, 64)
-        ctx.pmap(shard_search, [(ctx.shard_seed(i, "search"), n, mixes[i % len(mixes)]) for i in range(nsh)])
+        ctx.pmap(shard_search, [(ctx.shard_seed(i, "search"), n, mixes[i % len(mixes)], early_ok) for i in range(nsh)])
     ctx.ev.notes["known_shapes_excluded_from_search"] = (
         "colliding module ids (case re-run with distinct URIs; counted when only the colliding form fails), "
         "cache.set on Beaker (NotImplementedError swallowed, op dropped), invalidate_body/def/closure of a section "
